@@ -66,7 +66,10 @@ func c12Exec(fl c12Flavor, nconn int, hist []c12Ev) (string, string, string) {
 		cfg.Listens[0].NoReceived = "true"
 	}
 	cfg.DialogTimeout = fl.DT
+	// a name that is not in the host table but resolves through the (simulated) DNS
+	preStart = func() { vnet.SetHost("uadns.example.net", false, "127.0.0.1") }
 	w := StartRelayWorld(SimOpts{}, cfg)
+	preStart = nil
 	defer w.Close()
 	// the clients' announced addresses must not collide with the universe's listeners: use ports 6000+k
 	conns := make([]*vnet.TCPConn, nconn)
@@ -104,6 +107,8 @@ func c12Exec(fl c12Flavor, nconn int, hist []c12Ev) (string, string, string) {
 			return "ua.example.net:6000"
 		case "unknown-name":
 			return "nowhere.example.net:6000"
+		case "dns-name":
+			return "uadns.example.net:6000"
 		case "true-port":
 			return conns[k].LocalString()
 		}
@@ -319,7 +324,7 @@ func c12Run(c *Ctx) {
 	}
 	var flavors []c12Flavor
 	for _, rc := range []string{"on", "off"} {
-		for _, sb := range []string{"same", "different", "table-name", "unknown-name", "true-port"} {
+		for _, sb := range []string{"same", "different", "table-name", "unknown-name", "true-port", "dns-name"} {
 			for _, rp := range []bool{true, false} {
 				for _, be := range []string{"udp", "tcp"} {
 					flavors = append(flavors, c12Flavor{rc, sb, rp, be, "", 0, ""})
@@ -481,7 +486,7 @@ func c12Run(c *Ctx) {
 
 func init() {
 	addCheck(&Check{Flows: []flowOracle{flowExactlyOnce(false)}, ID: "C12", Level: "model_checking",
-		Rule:   "explicit-state BFS by replay (depth 6 with 2 client connections; thorough depth 7 with 3), all connections from 127.0.0.1 to one listener, two transactions per connection with pairwise distinct branches: events {connection k sends request t, backend answers (k,t) with 180, with 200, with a second 200} in every order, crossed with 40 flavours: received-support on/off x Via sent-by {same for all connections, different, host-table name, unknown name, equal to the true peer port} x rport requested or not x UDP or TCP backends, plus 16 flavours in which every branch is a proper prefix of the next (un-padded counters); plus, per UDP-backend flavour, a busy period: one transaction waits while another connection completes 1200 (thorough 6000) transactions, then its 180 and 200 arrive; plus a service with two listens entries whose next hop was learned through the other entry (tracked finding); plus answers that leave the backend host from another port and / or carry all Via values in one line; plus a table filling up with 1200 (6000) LIVE entries (unanswered requests) while a transaction waits; plus slow answers (clock steps of 2-1000 s between request, 180 and 200) under dialogTimeout none / 1 / 30 s for all 40 flavours; oracle: every provisional and the first final response is written on the connection that carried its request, on no other, and no connection is dialled; later finals are don't-cares; schedules: see the race tier; non-trivial = history longer than one event",
+		Rule:   "explicit-state BFS by replay (depth 6 with 2 client connections; thorough depth 7 with 3), all connections from 127.0.0.1 to one listener, two transactions per connection with pairwise distinct branches: events {connection k sends request t, backend answers (k,t) with 180, with 200, with a second 200} in every order, crossed with 48 flavours: received-support on/off x Via sent-by {same for all connections, different, host-table name, unknown name, equal to the true peer port, a name only the DNS knows} x rport requested or not x UDP or TCP backends, plus 16 flavours in which every branch is a proper prefix of the next (un-padded counters); plus, per UDP-backend flavour, a busy period: one transaction waits while another connection completes 1200 (thorough 6000) transactions, then its 180 and 200 arrive; plus a service with two listens entries whose next hop was learned through the other entry (tracked finding); plus answers that leave the backend host from another port and / or carry all Via values in one line; plus a table filling up with 1200 (6000) LIVE entries (unanswered requests) while a transaction waits; plus slow answers (clock steps of 2-1000 s between request, 180 and 200) under dialogTimeout none / 1 / 30 s for all 40 flavours; oracle: every provisional and the first final response is written on the connection that carried its request, on no other, and no connection is dialled; later finals are don't-cares; schedules: see the race tier; non-trivial = history longer than one event",
 		Assume: []string{"connections are interchangeable: histories start with connection 0 (symmetry reduction)"},
 		Run:    c12Run,
 		Finalize: func(c *Ctx, m *Result) {
